@@ -98,6 +98,9 @@ def empty(p):
     return ('not', ('call', 'len', p))
 
 
+_VAL_CACHE: dict = {}
+
+
 class SpecError(Exception):
     pass
 
@@ -277,11 +280,19 @@ class Spec:
 
     def validator(self, v: AValidator, p):
         """The validator's own code with its subject replaced by ``p``."""
-        code = vcode(v).format(obj='__beartype_pith_900', indent='')
+        ck = (id(v), p)
+        hit = _VAL_CACHE.get(ck)
+        if hit is not None and hit[0] is v:
+            return hit[1]
+        code = str.format(str(vcode(v)), obj='__beartype_pith_900', indent='')
         loc = vlocals(v)
         T = Terms(scope_key=lambda n: (objkey(loc[n]) if n in loc else None),
                   extra_bound={'__beartype_pith_900': p})
-        return T.of(code)
+        t = T.of(code)
+        if len(_VAL_CACHE) > 50000:
+            _VAL_CACHE.clear()
+        _VAL_CACHE[ck] = (v, t)
+        return t
 
 
 # ---------------------------------------------------------------------------
